@@ -1,7 +1,7 @@
 (* C08_Check.v — correspondence checker for C08 (soft delete). *)
 From Verif Require Export Base Sem Where_Model.
 From Verif Require Import Where_Render.
-From Verif Require Export C08_Hist.
+From Verif Require Export C08_Hist C08_Assoc.
 
 Record case := mk_case {
   c_atoms : atom_table;
@@ -24,7 +24,9 @@ Record case := mk_case {
   (* a history of creates, scoped / Unscoped deletes and updates, reads (C08_Hist.v): the table it
      starts from, its steps, and per step what the caller observed and the table afterwards *)
   h_init : hstate; h_ops : list hop;
-  h_obs : list (list Z); h_states : list hstate
+  h_obs : list (list Z); h_states : list hstate;
+  (* the kids of the association fixture: (id, age) of every live row of the case *)
+  a_kids : list (Z * Z)
 }.
 
 Definition tok_eqb (a b : tok) : bool :=
@@ -140,5 +142,17 @@ Fixpoint hist_spec (prev : hstate) (pl : list prow) (ops : list hop) (obs : list
 Definition hist_spec_holds (c : case) : bool :=
   hist_spec (h_init c) (erase (h_init c)) (h_ops c) (h_obs c) (h_states c).
 
+(* ---- association paths: the model of C08_Assoc on the fixture the harness builds from the case's
+   rows, with and without the marked copies, scoped and Unscoped ([] = paths not run on this case) ---- *)
+Definition assoc_model_agrees (c : case) : bool :=
+  match o_assoc c with
+  | [] => true
+  | _ =>
+    list_eqb zlist_eqb (firstn scoped_len (o_assoc c)) (scoped_paths true (a_kids c))
+    && list_eqb zlist_eqb (firstn scoped_len (n_assoc c)) (scoped_paths false (a_kids c))
+    && list_eqb zlist_eqb (firstn unscoped_len (o_uassoc c)) (unscoped_paths true (a_kids c))
+    && list_eqb zlist_eqb (firstn unscoped_len (n_uassoc c)) (unscoped_paths false (a_kids c))
+  end.
+
 Definition check_case (c : case) : N :=
-  code_of (model_agrees c && hist_model_agrees c) (spec_holds c && hist_spec_holds c).
+  code_of (model_agrees c && hist_model_agrees c && assoc_model_agrees c) (spec_holds c && hist_spec_holds c).
